@@ -86,6 +86,17 @@ fn announce(j: &J) {
     }
 }
 
+/// Announce a pre-rendered description (used by the purity binary).
+pub fn announce_text(t: &str) {
+    let b = t.as_bytes();
+    let n = b.len().min(ANN_CAP);
+    unsafe {
+        let dst = core::ptr::addr_of_mut!(ANN_BUF) as *mut u8;
+        core::ptr::copy_nonoverlapping(b.as_ptr(), dst, n);
+        ANN_LEN = n;
+    }
+}
+
 // ------------------------------------------------------------ guard pages
 
 const PAGE: usize = 4096;
